@@ -19,6 +19,9 @@ var registry = map[string]*obs.Monitor{}
 
 func register(m *obs.Monitor) { registry[m.ID] = m }
 
+// extraCommands are auxiliary sub-commands (worker processes spawned by monitors).
+var extraCommands = map[string]func(args []string){}
+
 // raceBuilt is set by race_on.go when the binary is built with -race.
 var raceBuilt bool
 
@@ -33,6 +36,10 @@ func main() {
 		os.Exit(2)
 	}
 	id := os.Args[1]
+	if f, ok := extraCommands[id]; ok {
+		f(os.Args[2:])
+		return
+	}
 	m, ok := registry[id]
 	if !ok {
 		fmt.Println("unknown property", id)
